@@ -53,11 +53,11 @@ Definition body_add_class (n : name) (d : def) : body :=
   Rd M_cls n (fun a => match a with
     | Some h => Ret (same_file d h)
     | None => Rd M_ifc n (fun b => match b with
-        | Some h => Ret (same_file d h)
+        | Some _ => Ret RErr
         | None => Wr M_cls n d (Ret ROk) end) end).
 Definition body_add_iface (n : name) (d : def) : body :=
   Rd M_cls n (fun a => match a with
-    | Some h => Ret (same_file d h)
+    | Some _ => Ret RErr
     | None => Rd M_ifc n (fun b => match b with
         | Some h => Ret (same_file d h)
         | None => Wr M_ifc n d (Ret ROk) end) end).
@@ -115,8 +115,9 @@ Definition in_excl (t : thread) : bool := match st t with InCS MExcl _ _ => true
 Fixpoint updt (l : list thread) (i : nat) (t : thread) : list thread :=
   match l, i with [], _ => [] | _ :: r, O => t :: r | x :: r, S j => x :: updt r j t end.
 
-(* one step of thread i; None = blocked (lock not available) or finished *)
-Definition cstep (s : cstate) (i : nat) : option cstate :=
+(* one step of thread i; None = blocked (lock not available) or finished.  `mo` = the lock each method
+   takes (mode_of for the code as it is; Examples.v instantiates it with the pre-fix modes) *)
+Definition cstep_gen (mo : call -> mode) (s : cstate) (i : nat) : option cstate :=
   match nth_error (thr s) i with
   | None => None
   | Some t =>
@@ -125,7 +126,7 @@ Definition cstep (s : cstate) (i : nat) : option cstate :=
       match todo t with
       | [] => None
       | c :: rest =>
-        match mode_of c with
+        match mo c with
         | MExcl =>
           (* vm.mu.Lock(): nobody holds the lock in any mode *)
           if existsb in_cs (thr s) then None else
@@ -161,6 +162,11 @@ Definition cstep (s : cstate) (i : nat) : option cstate :=
       end
     end
   end.
+
+Definition cstep := cstep_gen mode_of.
+
+Fixpoint crun_gen (mo : call -> mode) (s : cstate) (sched : list nat) : cstate :=
+  match sched with [] => s | i :: r => match cstep_gen mo s i with Some s' => crun_gen mo s' r | None => crun_gen mo s r end end.
 
 Fixpoint crun (s : cstate) (sched : list nat) : cstate :=
   match sched with [] => s | i :: r => match cstep s i with Some s' => crun s' r | None => crun s r end end.
